@@ -423,6 +423,18 @@ def gen_dyn(g):
     sched = [gen_run(g, k)]
     for _ in range(r.choice([0, 0, 1, 1, 2, 3])):
         c = r.random()
+        if g.chance(0.15):
+            # the user changes the duty cycle by hand between two runs
+            sched.append({'op': 'set_pwm',
+                          'value': r.choice([0, 1, -1, round(r.uniform(-1, 1), 3)])})
+        gears = [d for d in scn['decls'] if d['op'] == 'gear' and
+                 d['s'] in chain and d['m'] in chain]
+        if gears and g.chance(0.12):
+            # the same mating declared again with another efficiency between
+            # two runs (state cached by the solver must not survive this)
+            d = dict(r.choice(gears))
+            d['eff'] = round(r.uniform(0.3, 1.0), 3)
+            sched.append({'op': 'redeclare', 'decl': d})
         if c < 0.6:
             sched.append(gen_run(g, k))
         elif c < 0.8:
@@ -578,6 +590,9 @@ def gen_lock(g):
     sched = [gen_run(g, k, kdt=g.logu(0.02, 1.0))]
     for _ in range(r.choice([0, 1, 1, 2])):
         c = r.random()
+        if g.chance(0.2):
+            sched.append({'op': 'set_pwm',
+                          'value': r.choice([0, 0, 1, -1, round(r.uniform(-1, 1), 3)])})
         if c < 0.7:
             sched.append(gen_run(g, k, kdt=g.logu(0.02, 1.0)))
         else:
@@ -1170,6 +1185,25 @@ def gen_motor(g):
                 cur = round(r.uniform(-1, 1), 4)
         table[str(j)] = cur
     scn['rules'] = [{'kind': 'Scripted', 'table': table}]
+    # direct probes of the motor's API at arbitrary (speed, duty) points
+    pts = []
+    for _ in range(r.randint(3, 12)):
+        c = r.random()
+        if c < 0.35 and dlim:
+            base = dlim * r.choice([1, -1])
+            d = r.choice([base, math.nextafter(base, 2), math.nextafter(base, -2),
+                          base * (1 + 1e-9), base * (1 - 1e-9), base / 2])
+        elif c < 0.5:
+            d = r.choice([1, -1, 0, 1.0, -1.0])
+        else:
+            d = round(r.uniform(-1, 1), 5)
+        wv = r.choice([0.0, msi['w0'], -msi['w0'], r.uniform(-3, 3) * msi['w0']])
+        pt = {'w': g.q('AngularSpeed', wv), 'pwm': d}
+        if g.chance(0.4):
+            pt['relabel'] = r.choice(si.units_of('Torque'))
+            pt['inplace'] = g.chance(0.5)
+        pts.append(pt)
+    scn['schedule'].append({'op': 'motor_probe', 'points': pts})
     return scn
 
 
@@ -1422,7 +1456,52 @@ def gen_stress(g):
         sched.append(gen_run(g, k, kdt=g.logu(0.02, 1.0)))
     scn['schedule'] = sched
     add_control(g, scn, model, chain, p=0.3, kinds=[['Scripted']][0])
+    if g.chance(0.3):
+        add_remating_phase(g, scn, model, chain, k)
     return scn
+
+
+def add_remating_phase(g, scn, model, chain, k):
+    """A second phase on the same objects: after a reset, the master of one
+    gear mating is replaced by a new gear (other teeth number, modulus,
+    inertia), the powertrain is assembled again and simulated again.  State
+    that an element cached while it was mated with the old gear must not
+    survive this."""
+    import copy
+    r = g.rng
+    els, decls = scn['elements'], scn['decls']
+    masters_of_gear = {d['m'] for d in decls if d['op'] == 'gear'}
+    cands = []
+    for d in decls:
+        if d['op'] != 'gear' or d['m'] not in chain or d['s'] not in chain:
+            continue
+        a, b = d['m'], d['s']
+        if b in masters_of_gear:          # idler: keep the roles simple
+            continue
+        into_a = [x for x in decls if x['s'] == a and x['m'] in chain]
+        if len(into_a) != 1 or into_a[0]['op'] != 'joint':
+            continue
+        cands.append((into_a[0]['m'], a, b))
+    if not cands:
+        return
+    prev, a, b = r.choice(cands)
+    new = copy.deepcopy(els[a])
+    new['name'] = f'e{len(els)}_new'
+    new['z'] = g.teeth()
+    new['J'] = g.inertia()
+    if new.get('E') is not None:
+        new['E'] = g.q('Stress', g.logu(1e9, 2.1e11))
+    ia = len(els)
+    scn['schedule'].append({'op': 'reset', 'reapply': False})
+    g.cfg = dict(g.cfg)
+    nsched = [gen_run(g, k, kdt=g.logu(0.02, 0.8))]
+    scn['next'] = {
+        'elements': [new],
+        'decls': [{'op': 'joint', 'm': prev, 's': ia},
+                  {'op': 'gear', 'm': ia, 's': b,
+                   'eff': round(r.uniform(0.6, 1.0), 3)}],
+        'schedule': nsched,
+    }
 
 
 PROFILES['stress'] = gen_stress
